@@ -60,6 +60,7 @@ IO_TIMEOUT = 40.0         # every peer-side socket operation (generous: the box 
 CA_SUBJECT = '/CN=px-verif-ca/O=px-verif'
 
 SITUATIONS = ('trusted', 'selfsigned', 'untrusted', 'wrongname', 'expired')
+NO_CERT = ('garbage', 'reset')     # origins that never present a certificate
 
 
 # --------------------------------------------------------------------------
@@ -249,6 +250,11 @@ class Origin(threading.Thread):
         s = self.sock
         try:
             s.settimeout(IO_TIMEOUT)
+            if self.certfile == 'reset':
+                # goes away with the ClientHello unread: the peer sees a connection reset
+                time.sleep(0.3)
+                self.handshake = 'reset'
+                return
             if self.certfile is None:
                 # not a TLS server: answers the ClientHello with clear text and goes away
                 self.received = s.recv(65536)[:0]
@@ -594,7 +600,7 @@ class World:
         c = self.case
         args = ['--hostname', '127.0.0.1', '--ca-file', self.p.ca_cert]
         if c['intercept']:
-            args += ['--ca-key-file', self.p.ca_key, '--ca-cert-file', self.p.ca_cert,
+            args += ['--ca-key-file', '' if c.get('emptykey') else self.p.ca_key, '--ca-cert-file', self.p.ca_cert,
                      '--ca-signing-key-file', self.p.signing_key]
         args += ['--ca-cert-dir', self.certdir]
         if c['insecure']:
@@ -609,7 +615,8 @@ class World:
         REC.append({'ev': 'connect', 'host': addr[0], 'port': addr[1]})
         a, b = socket.socketpair()
         sit = self.case['sit']
-        o = Origin(b, None if sit == 'garbage' else self.p.leaf(sit, self.case['host']), self.p.origin_key,
+        o = Origin(b, None if sit == 'garbage' else 'reset' if sit == 'reset' else self.p.leaf(sit, self.case['host']),
+                   self.p.origin_key,
                    origin_response(self.case),
                    extra_raw=bytes.fromhex(self.case.get('junk', '')))
         self.origins.append(o)
@@ -895,7 +902,7 @@ def post_lines(res, post):
 
 def upstream_subject(case):
     """what `{s[0][0]: s[0][1] for s in cert['subject']}` iterates over for the origin's leaf"""
-    if case['sit'] == 'garbage':
+    if case['sit'] in NO_CERT:
         return []
     cert = decode_cert(pki().leaf(case['sit'], case['host']))
     return [(rdn[0][0], rdn[0][1]) for rdn in cert['subject']]
@@ -940,7 +947,7 @@ def e2e_model_lines(case):
     subj = upstream_subject(case)
     cmds = openssl_outcomes(observe(case))
     return ['tls orc %s %s %s %s %s %s %s %s %s %s %s - %s %s %s 0 %d' % (
-        hs(p.ca_key) if inter else 'None', hs(p.ca_cert) if inter else 'None',
+        hs('' if case.get('emptykey') else p.ca_key) if inter else 'None', hs(p.ca_cert) if inter else 'None',
         hs(p.signing_key) if inter else 'None', hs(CERTDIR), hs(p.ca_cert), b01(case['insecure']),
         hs(case.get('openssl') or 'openssl'), ''.join(case['plugins']) or '-', hs(case['host']), case['sit'],
         ','.join('%s=%s' % (hs(k), hs(v)) for k, v in subj) or '-',
@@ -974,6 +981,9 @@ def _fake_openssl(script, created):
                'rc': True if out == 'o' else ('timeout' if out == 't' else False)}
         REC.append(ent)
         if out == 't':
+            # pki.ext_file / pki.ssl_config have no try/finally: an exception leaves their temp file behind
+            if content is not None:
+                os.remove(content[0])
             raise subprocess.TimeoutExpired(command, timeout)
         if out == 'o' and '-out' in command:
             created.add(command[command.index('-out') + 1])
@@ -1250,7 +1260,7 @@ def oracle(case):
             return 'hang'
         if og is None:
             return 'no-upstream-connection'
-        origin_der = None if case['sit'] == 'garbage' else pem_to_der(p.leaf(case['sit'], case['host']))
+        origin_der = None if case['sit'] in NO_CERT else pem_to_der(p.leaf(case['sit'], case['host']))
         wraps = [e for e in o['rec'] if e['ev'] in ('wrapUp', 'wrapClient')]
         if not case['intercept'] or opted_out:
             # opaque tunnel: no TLS termination, bytes verbatim both ways
@@ -1274,7 +1284,7 @@ def oracle(case):
         if undocumented:
             continue
         bad = not origin_acceptable(case)
-        if (bad and not case['insecure']) or case['sit'] == 'garbage':
+        if (bad and not case['insecure']) or case['sit'] in NO_CERT:
             # never trusts a bad upstream: no application data in either direction
             if og['received']:
                 return 'bad-upstream-received-application-data'
@@ -1293,7 +1303,8 @@ def oracle(case):
             if case['host'].startswith('['):
                 return 'trusted-ipv6-origin-refused-bracketed-server-hostname'
             return 'trusted-origin-refused'
-        if case.get('openssl') or any(e['ev'] == 'openssl' and e['rc'] is not True for e in o['rec']):
+        if case.get('openssl') or case.get('emptykey') or \
+                any(e['ev'] == 'openssl' and e['rc'] is not True for e in o['rec']):
             break           # --openssl cannot mint / an invocation failed or hit the code's 10 s timeout: the
             #                 environment's doing, nothing further to judge (cache state is then undefined too)
         if o['leaf'] is None:
@@ -1398,7 +1409,7 @@ ANSWER_SETS = [[], ['T'], ['F'], ['T', 'F'], ['F', 'T'], ['T', 'F', 'T'], ['T', 
 def corpus():
     cs = _corpus()
     for c in cs:
-        if c['kind'] == 'e2e' and c['sit'] != 'garbage':
+        if c['kind'] == 'e2e' and c['sit'] not in NO_CERT:
             pki().leaf(c['sit'], c['host'])
     return cs
 
@@ -1411,9 +1422,9 @@ def _corpus():
         e2e(plugins=['F']), e2e(plugins=['T', 'F', 'T'], sit='selfsigned'), e2e(plugins=['T', 'N']),
         e2e(plugins=['N', 'T']), e2e(intercept=0), e2e(host='127.0.0.1'), e2e(host='[::1]'),
         e2e(host='[::1]', insecure=1), e2e(host='127.0.0.1', sit='selfsigned'),
-        e2e(sit='garbage'), e2e(sit='selfsigned', junk='160303000a0102030405060708090a'), e2e(sit='wrongname', junk='00' * 64),
+        e2e(sit='garbage'), e2e(sit='reset'), e2e(sit='reset', insecure=1), e2e(sit='selfsigned', junk='160303000a0102030405060708090a'), e2e(sit='wrongname', junk='00' * 64),
         e2e(client='distrust'), e2e(client='gone'), e2e(client='hangup'),
-        e2e(openssl='/bin/false'), e2e(hosthdr='other.example:443'), e2e(hosthdr='other.example:443', plugins=['F']),
+        e2e(openssl='/bin/false'), e2e(emptykey=1), e2e(hosthdr='other.example:443'), e2e(hosthdr='other.example:443', plugins=['F']),
         e2e(req={'m': 'POST', 'path': '/submit', 'h': ['Host: example.org', 'Proxy-Authorization: Basic eDp5',
                                                       'Content-Type: text/plain'], 'b': 'x' * 3000},
             resp=70000, cuts=[5, 40, 200]),
@@ -1533,7 +1544,7 @@ def generate(rng, tier):
         if key in seen:
             continue
         seen.add(key)
-        if c['kind'] == 'e2e' and c['sit'] != 'garbage':
+        if c['kind'] == 'e2e' and c['sit'] not in NO_CERT:
             pki().leaf(c['sit'], c['host'])      # made here, once, before the engine forks its workers
         yield c
 
@@ -1557,7 +1568,7 @@ def _generate(rng, tier):
         n = 10
     else:
         hosts = NAMES[:3] + ['127.0.0.1', '[::1]']
-        for sit in sits + ['garbage']:
+        for sit in sits + ['garbage', 'reset']:
             for insecure in (0, 1):
                 for host in hosts:
                     for answers in ([], ['T'], ['F'], ['T', 'F', 'T'], ['T', 'N'], ['N', 'T']):
